@@ -271,3 +271,48 @@ def r12_iteration_exits(ctx):
                 ctx.check(ok, R, call, f, 'candidates are excluded only after an iteration that ended without an election (converged, stable or sure losers)',
                           'the defeat is dominated by the False edge of `iterationStatus == elected`',
                           'an exclusion can happen in a round whose iteration elected a candidate / before the iteration ended')
+
+
+# ---------------------------------------------------------------------------
+# R10b  after an exclusion zeroes a tally, votes are redistributed before the next recorded action
+# ---------------------------------------------------------------------------
+
+def r10b_redistribute_before_record(ctx):
+    R = 'R10b'
+    from .recordrules import _emits, _tags_tuple
+    tags, fill = _tags_tuple(ctx)
+    n = 0
+    for ri in meek_rules(ctx):
+        f, cfg = ri.count, ri.cfg
+        dist_names = set(g.name for g in _distribution_funcs(ctx, ri))
+        # helpers that (transitively) call a distribution function
+        changed = True
+        while changed:
+            changed = False
+            for g in all_funcs_of(f):
+                if g is f or g.name in dist_names:
+                    continue
+                if any(isinstance(c, ast.Call) and isinstance(c.func, ast.Name) and c.func.id in dist_names for c in g.own_nodes()):
+                    dist_names.add(g.name)
+                    changed = True
+        D = {x for x in cfg.stmt_nodes() if any(isinstance(c.func, ast.Name) and c.func.id in dist_names for c in calls_at(x))}
+        A = {x for x in cfg.stmt_nodes() if _emits(ctx, f, x, fill) & {'fill', 'other'}} - D
+        # the final recomputation makes the 'end' snapshot consistent
+        final = {x for x in cfg.stmt_nodes() if x.kind == 'stmt' and isinstance(x.ast, ast.Assign) and ctx.canon(x.ast.targets[0], f) == 'E.residual'
+                 and 'nBallots' in unparse(x.ast.value)}
+        for z in cfg.stmt_nodes():
+            st = z.ast
+            if not (z.kind == 'stmt' and isinstance(st, ast.Assign) and isinstance(st.targets[0], ast.Attribute) and st.targets[0].attr == 'vote'
+                    and ctx.canon(st.value, f) == 'E.V0'):
+                continue
+            n += 1
+            r = cfg.reach([z], avoid=D | final)
+            bad = sorted((x for x in r if x in A), key=lambda x: x.line)
+            at_exit = cfg.exit in r
+            ctx.check(not bad and not at_exit, R, st, f,
+                      'after an excluded candidate\'s tally is zeroed, the votes are redistributed before the next action is recorded '
+                      '(so every recorded step accounts for all ballots)',
+                      'every path from `%s` to the next recorded action passes a distribution (%s)' % (stmt_text(st), ', '.join(sorted(dist_names))),
+                      'after `%s` the next action (line %s) is recorded with the excluded candidate\'s votes neither credited to anybody nor '
+                      'counted in the residual' % (stmt_text(st), bad[0].line if bad else 'end of count'))
+    ctx.floor(R, 'tally zeroings in Meek rules', n, 5)
